@@ -334,6 +334,15 @@ func (p *queryPlan) processClause(ctx context.Context, cls *semantic.GraphClause
 		if err != nil {
 			return false, err
 		}
+		if b || len(tbl.Bindings()) == 0 {
+			// Either no such triple exists, or the clause binds nothing and only
+			// required the triple to exist: there are no rows to add.
+			return b, nil
+		}
+		if len(p.tbl.Bindings()) > 0 {
+			// The aliases of a fully specified clause are new bindings.
+			return b, p.tbl.DotProduct(tbl)
+		}
 		if err := p.tbl.AppendTable(tbl); err != nil {
 			return b, err
 		}
